@@ -33,9 +33,9 @@ CFG = {
 # deeper, narrower configurations (run in addition)
 DEEP = {
     "quick": [dict(MaxLen=7, LeafNames={"n0", "n2", "m", "s", "hz", "sym"}, OpNames={"mul2", "add2", "pow", "min2", "exp"})],
-    "thorough": [dict(MaxLen=7, LeafNames={"n0", "n2", "nm1", "nh", "oo", "m", "km", "s", "sym"},
-                      OpNames={"mul2", "add2", "pow", "abs", "min2", "exp"}),
-                 dict(MaxLen=9, LeafNames={"n0", "n2", "m", "s"}, OpNames={"mul2", "add2", "pow", "max2"})],
+    "thorough": [dict(MaxLen=7, LeafNames={"n0", "n2", "nm1", "m", "s", "hz", "sym"},
+                      OpNames={"mul2", "add2", "pow", "abs", "min2"}),
+                 dict(MaxLen=9, LeafNames={"n2", "m", "s"}, OpNames={"mul2", "add2", "pow"})],
 }
 
 INVARIANTS = ["TypeOK", "OrderIndependent", "OrderIndependent3", "AnyHasNoDimension"]
@@ -119,6 +119,7 @@ def enumerate_and_replay(run: Run, sc, cfgd: dict, pool, label: str) -> None:
     cfg2 = write_cfg(sc / f"qc_{label}_emit.cfg", constants=cfgd, invariants=["Emit"])
     res2 = run_tlc("QuantityCollect", cfg2, sc, workers=1, allow_violation=False)
     cases = res2.printed
+    res2.output = ""
     run.coverage.setdefault("programs_emitted", {})[label] = len(cases)
     if label == "wide":
         run.cases_for_traces = cases
